@@ -5,6 +5,12 @@
 // part.  Everything random comes from one PRNG seeded by VERIF_SEED.  One JSON object per line on
 // stdout: first the shape ({"kind":"shape",..}), then its cases ({"kind":"case","prop":"C03",..}).
 // Panics of the code under test are recovered per request and recorded as an enum.
+//
+// Type identity is reported as a canonical name (canon): reflect's String() plus a suffix for every
+// further type that prints the same.  The generated "homonym" shapes are declared inside their init
+// function behind local types that shadow package-level ones (`type MyInt string` vs the package-level
+// `type MyInt int64`: same String(), Name() and PkgPath(), distinct types); they announce those local
+// types with declareType, so `main.MyInt` is the package-level type and `main.MyInt#K8` the one of shape K8.
 package main
 
 import (
@@ -14,6 +20,7 @@ import (
 	"math/rand"
 	"os"
 	"reflect"
+	"regexp"
 	"runtime/debug"
 	"strconv"
 	"strings"
@@ -77,6 +84,26 @@ var shapes []*shapeDef
 //------------------------------------------------------------------------------
 
 var nameRegistry = map[string][]reflect.Type{}
+var declared = map[reflect.Type]string{}
+
+// declareType fixes the canonical name of a type before anything asks for it.  The generated source
+// declares the package-level named types first (label "": plain String()), then every function-local
+// type of a homonym shape (label = shape id: String() + "#" + id), so that the canonical names do not
+// depend on which other shapes take part in the run (a replay runs one shape only).
+func declareType(t reflect.Type, label string) {
+	if label == "" {
+		if s := canon(t); s != t.String() {
+			panic("harness: " + s + " declared after a type that prints alike")
+		}
+		return
+	}
+	declared[t] = t.String() + "#" + label
+}
+
+// printsAs: what reflect's String() gives for the type of this canonical name
+var canonSuffix = regexp.MustCompile(`#[A-Za-z0-9]+`)
+
+func printsAs(canonical string) string { return canonSuffix.ReplaceAllString(canonical, "") }
 
 // canonical name: reflect's String(), made unique per type identity
 func canon(t reflect.Type) string {
@@ -85,6 +112,9 @@ func canon(t reflect.Type) string {
 	}
 	if t.Kind() == reflect.Pointer {
 		return "*" + canon(t.Elem())
+	}
+	if s, ok := declared[t]; ok {
+		return s
 	}
 	s := t.String()
 	l := nameRegistry[s]
@@ -797,6 +827,32 @@ func attrsFor(sd *shapeDef, d *deriver, L []entryObs, u []string, hostile bool) 
 	}
 	if hostile {
 		res = append(res, randNames(u, keysOf(L), n, true))
+		// homonym shapes: at some position the name of a field whose type is another one that PRINTS like the requested type
+		var alike []string
+		namesake := false
+		for _, t := range d.Tys {
+			var other, all []string
+			for _, e := range L {
+				if printsAs(e.Type) == t.String() {
+					all = append(all, e.Key)
+					if e.Type != canon(t) {
+						other = append(other, e.Key)
+					}
+				}
+			}
+			switch {
+			case len(other) > 0 && (!namesake || rng.Intn(2) == 0):
+				alike = append(alike, pick(other))
+				namesake = true
+			case len(all) > 0:
+				alike = append(alike, all[0])
+			default:
+				alike = append(alike, "nope")
+			}
+		}
+		if namesake && n > 1 {
+			res = append(res, alike)
+		}
 	}
 	return res
 }
@@ -821,6 +877,14 @@ func runDerive(sd *shapeDef, ar *arena, L []entryObs, props map[string]bool) {
 					if e.Type == canon(d.Tys[0]) && same < 3 || rng.Intn(16) == 0 {
 						as = append(as, []string{e.Key})
 						same++
+					}
+				}
+				// the fields whose type is another one that PRINTS like the focus type (homonym shapes)
+				alike := 0
+				for _, e := range L {
+					if e.Type != canon(d.Tys[0]) && printsAs(e.Type) == d.Tys[0].String() && alike < 3 {
+						as = append(as, []string{e.Key})
+						alike++
 					}
 				}
 				as = append(as, []string{pick(u)})
